@@ -147,6 +147,11 @@ FFI_SEEDS = [
     ("hand:ffi-nosym", 'extern "libm.so.6" func nosuchfunction(x : float) -> float\nfunc main() -> int { print(nosuchfunction(1.0)); 0 }'),
     ("hand:ffi-string", 'extern "libc.so.6" func strlen(s : string) -> long\nextern "libc.so.6" func atoi(s : string) -> int\nfunc main() -> int { let l = strlen("abcd"); atoi("12") }'),
     ("hand:ffi-record", 'record D { quot : int; rem : int; }\nextern "libc.so.6" func div(n : int, d : int) -> D\nfunc main() -> int { let r = div(17, 5); r.quot * 10 + r.rem }'),
+    ("hand:ffi-record-arg", 'record Addr { s_addr : int; }\nextern "libc.so.6" func inet_ntoa(a : Addr) -> string\nfunc main() -> int { length(inet_ntoa(Addr(16777343))) }'),
+    ("hand:ffi-record-arg-nil-caught", 'record Addr { s_addr : int; }\nextern "libc.so.6" func inet_ntoa(a : Addr) -> string\nfunc show(a : Addr) -> int { length(inet_ntoa(a)) } catch (ffi_fail) { 0 - 1 }\nfunc main() -> int { var none = Addr; none = nil; show(Addr(16777343)) + show(none) + show(none) }'),
+    ("hand:ffi-record-arg-nil-unhandled", 'record Addr { s_addr : int; }\nextern "libc.so.6" func inet_ntoa(a : Addr) -> string\nfunc main() -> int { var none = Addr; none = nil; length(inet_ntoa(none)) }'),
+    ("hand:ffi-nested-record-nil", 'record In { a : int; } record Out { i : In; b : int; }\nextern "libc.so.6" func abs(o : Out) -> int\nfunc f(o : Out) -> int { abs(o) } catch (ffi_fail) { 0 - 1 }\nfunc main() -> int { var i = In; i = nil; f(Out(In(3), 4)) + f(Out(i, 5)) }'),
+    ("hand:ffi-string-arg-nil", 'extern "libc.so.6" func strlen(s : string) -> long\nfunc f(ss[D] : string) -> int { strlen(ss[0]) == 0L ? 0 : 1 } catch (ffi_fail) { 0 - 1 }\nfunc main() -> int { let ss = {[ 2 ]} : string; f(ss) }'),
     ("hand:ffi-cptr", 'extern "libc.so.6" func malloc(n : long) -> c_ptr\nextern "libc.so.6" func free(p : c_ptr) -> void\nfunc main() -> int { let p = malloc(16L); free(p); 0 }'),
 ]
 
